@@ -7,7 +7,7 @@ CONSTANTS
   NewObjs <- MCNewObjs
   MaxDepth = 2
   Starts <- StartsTiny
-  Allowed = {"delete.array.dup", "delete.streamdict", "delete.trailer", "resources.shadow", "contents.refToArray"}
+  Allowed = {}
   Emit = TRUE
   EmitMod = 50
   EmitModV = 1
